@@ -4,6 +4,9 @@ import (
 	"bytes"
 	"fmt"
 	"io"
+	"strings"
+	"sync/atomic"
+	"verif/internal/ev"
 	"verif/internal/mon"
 
 	"github.com/ulikunitz/xz"
@@ -124,4 +127,40 @@ func sourceVaried(in []byte, salt uint64) io.Reader {
 		return 1 + int(x%4000)
 	}
 	return src
+}
+
+var carryMax int64
+
+// noteCarry records, for content of the "carry:" families, the longest run of 0xff or 0x00
+// bytes in the emitted stream: the trace a run of held-back bytes leaves when it is released
+// without or with a carry.  It shows whether the writer really went through those states.
+func noteCarry(c *ev.Ctx, family string, out []byte) {
+	if !strings.HasPrefix(family, "carry:") {
+		return
+	}
+	best, run := 0, 0
+	for i := range out {
+		if i > 0 && out[i] == out[i-1] && (out[i] == 0xff || out[i] == 0) {
+			run++
+		} else {
+			run = 1
+		}
+		if run > best {
+			best = run
+		}
+	}
+	c.Count("carry_family_streams", 1)
+	if best >= 6 {
+		c.Count("carry_family_streams_with_run_of_6_or_more", 1)
+	}
+	for {
+		old := atomic.LoadInt64(&carryMax)
+		if int64(best) <= old {
+			return
+		}
+		if atomic.CompareAndSwapInt64(&carryMax, old, int64(best)) {
+			c.Set("longest_released_run_in_emitted_streams", best)
+			return
+		}
+	}
 }
